@@ -35,3 +35,32 @@ def base_distribution(dist, cases):
 
 TRUST_RUNTIME = ("js/ops_eval.mjs evaluates the generated .ts artifacts as JavaScript modules after removing the fixed set of "
                  "TypeScript-only constructs the artifact writers emit (anything else is a SyntaxError); user code is a stub")
+
+
+def install_case_replays(ctx):
+    """Op lines refer to their case by id; a replay must carry the `case` (and `casegraph`) line with it."""
+    cases = {}
+    orig = core.run_pipeline
+
+    def wrapped(hb, db, req_lines, env=None, timeout=3600):
+        for l in req_lines:
+            f = l.split("\t")
+            if f[0] == "case" and len(f) > 1:
+                cases[f[1]] = [l]
+            elif f[0] == "casegraph" and len(f) > 1 and f[1] in cases and len(cases[f[1]]) == 1:
+                cases[f[1]].append(l)
+        return orig(hb, db, req_lines, env, timeout)
+
+    core.run_pipeline = wrapped
+    origv = ctx.violation
+
+    def violation(obj, no_input=False):
+        req = obj.get("request")
+        if isinstance(req, str) and "\n" not in req:
+            f = req.split("\t")
+            if len(f) > 1 and f[0] != "case" and f[1] in cases:
+                obj = dict(obj)
+                obj["request"] = "\n".join(cases[f[1]] + ([] if f[0] == "casegraph" else [req]))
+        return origv(obj, no_input)
+
+    ctx.violation = violation
